@@ -99,6 +99,15 @@ CLAIMS = {
                 'instants, the stop after count results and that no loser code runs afterwards.',
         'note': _NOTE,
     },
+    'C08': {
+        'text': 'Expression shape and atom kinds are finite choices, thresholds, tracked / '
+                'resource values, change dates (zero gaps = revert within a step) and waiter '
+                'start dates are symbolic; a reference evaluator over the raw atom states is '
+                'proved equivalent to bool(derived condition) at every activation, true at every '
+                'resume, and false for every waiter still suspended at each time-step boundary '
+                'and at quiescence.',
+        'note': _NOTE,
+    },
 }
 
 NOT_APPLICABLE = {}
